@@ -140,6 +140,8 @@ def gen_case(world, tier, prop):
 
   def value(depth=0, allow_tv=True):
     r = rng.random()
+    if r < 0.03:
+      return {'novalue': 1}   # the NO_VALUE sentinel stored explicitly
     if r < 0.45 or depth >= 2:
       return token()
     if r < 0.58 and allow_tv:
@@ -324,6 +326,8 @@ class Side:
         return tuple(self.value(e) for e in d['tuple'])
       if 'dict' in d:
         return {k: self.value(v) for k, v in d['dict']}
+      if 'novalue' in d:
+        return M.NO_VALUE
       if 'node' in d:
         nd = d['node']
         args = [self.value(a) for a in nd['args']]
